@@ -827,7 +827,7 @@ where Octs: AsRef<[u8]>,
       Other: AsRef<[u8]>
 {
     fn eq(&self, other: &Ipv4MplsUnicastAddpathNlri<Other>) -> bool {
-        self.0 == other.0
+        self.0 == other.0 && self.1 == other.1
     }
 }
 
@@ -901,7 +901,7 @@ where Octs: AsRef<[u8]>,
       Other: AsRef<[u8]>
 {
     fn eq(&self, other: &Ipv4MplsVpnUnicastAddpathNlri<Other>) -> bool {
-        self.0 == other.0
+        self.0 == other.0 && self.1 == other.1
     }
 }
 
@@ -974,7 +974,7 @@ where Octs: AsRef<[u8]>,
       Other: AsRef<[u8]>
 {
     fn eq(&self, other: &Ipv4RouteTargetAddpathNlri<Other>) -> bool {
-        self.0 == other.0
+        self.0 == other.0 && self.1 == other.1
     }
 }
 
@@ -1058,7 +1058,7 @@ where Octs: AsRef<[u8]>,
       Other: AsRef<[u8]>
 {
     fn eq(&self, other: &Ipv4FlowSpecAddpathNlri<Other>) -> bool {
-        self.0 == other.0
+        self.0 == other.0 && self.1 == other.1
     }
 }
 
@@ -1268,7 +1268,7 @@ where Octs: AsRef<[u8]>,
       Other: AsRef<[u8]>
 {
     fn eq(&self, other: &Ipv6MplsUnicastAddpathNlri<Other>) -> bool {
-        self.0 == other.0
+        self.0 == other.0 && self.1 == other.1
     }
 }
 
@@ -1344,7 +1344,7 @@ where Octs: AsRef<[u8]>,
       Other: AsRef<[u8]>
 {
     fn eq(&self, other: &Ipv6MplsVpnUnicastAddpathNlri<Other>) -> bool {
-        self.0 == other.0
+        self.0 == other.0 && self.1 == other.1
     }
 }
 
@@ -1428,7 +1428,7 @@ where Octs: AsRef<[u8]>,
       Other: AsRef<[u8]>
 {
     fn eq(&self, other: &Ipv6FlowSpecAddpathNlri<Other>) -> bool {
-        self.0 == other.0
+        self.0 == other.0 && self.1 == other.1
     }
 }
 
@@ -1565,7 +1565,7 @@ where Octs: AsRef<[u8]>,
       Other: AsRef<[u8]>
 {
     fn eq(&self, other: &L2VpnEvpnAddpathNlri<Other>) -> bool {
-        self.0 == other.0
+        self.0 == other.0 && self.1 == other.1
     }
 }
 
